@@ -137,14 +137,11 @@ impl EncodingFileOps {
         };
 
         if let Some(raw_data) = cache.get(&raw_key).await? {
-            // For encoding files, we derive content key from encoding key
-            let content_key = Self::content_key_from_encoding(&encoding_key);
-            let validation_result = validation.validate_content(&content_key, &raw_data).await?;
-            if !validation_result.is_valid {
-                return Err(crate::error::NgdpCacheError::ContentValidationFailed(
-                    content_key,
-                ));
-            }
+            // The cache is keyed by the ENCODING key, which is not a hash of the
+            // decoded file cached here: there is nothing to validate the bytes
+            // against (the former placeholder check rejected every file).
+            // Parsing still rejects anything that is not an encoding file.
+            let _ = validation;
             let encoding_file = Self::parse_encoding_file(&raw_data, config)?;
             return Ok(Some(encoding_file));
         }
@@ -184,11 +181,6 @@ impl EncodingFileOps {
         })
     }
 
-    /// Helper to generate content key from encoding key
-    fn content_key_from_encoding(encoding_key: &EncodingKey) -> ContentKey {
-        // This is a placeholder - actual implementation would depend on NGDP spec
-        ContentKey::from_data(encoding_key.to_string().as_bytes())
-    }
 }
 
 /// Helper functions for archive operations
